@@ -615,15 +615,27 @@ func executeAcks(c AckCase) (res ackResult, err error) {
 	}
 	total := time.After(90 * time.Second)
 	stalled := false
+	kicks := 0
 wait:
 	for {
 		w.mu.Lock()
-		done := w.next >= len(c.Steps) && w.tail >= tailRounds && len(w.reqs) > 0 && w.reqs[len(w.reqs)-1].kind == "held"
 		idle := time.Since(w.lastReq)
+		done := w.next >= len(c.Steps) && w.tail >= tailRounds && len(w.reqs) > 0 && (w.reqs[len(w.reqs)-1].kind == "held" || idle > 300*time.Millisecond)
 		w.mu.Unlock()
 		switch {
 		case done:
 			break wait
+		case idle > stallBound && kicks < 2:
+			// the publish loop has stopped (e.g. the server claimed to have no
+			// subscription): another Subscribe starts it again, the history goes on
+			kicks++
+			sctx, sc := context.WithTimeout(ctx, 5*time.Second)
+			_, e := cl.Subscribe(sctx, &opcua.SubscriptionParameters{Interval: 100 * time.Millisecond, MaxKeepAliveCount: keepAlive, LifetimeCount: 3 * keepAlive}, nch)
+			sc()
+			w.mu.Lock()
+			w.lastReq = time.Now()
+			w.logf("publish loop idle for %v: extra Subscribe -> %v", stallBound, e)
+			w.mu.Unlock()
 		case idle > stallBound:
 			stalled = true
 			break wait
@@ -658,6 +670,9 @@ wait:
 	consumed := w.next
 	events := append([]string(nil), w.events...)
 	w.mu.Unlock()
+	if kicks > 0 {
+		cls["publish-loop-restarted-by-an-extra-Subscribe"] = true
+	}
 	if stalled {
 		cls[fmt.Sprintf("history-not-finished(no-PublishRequest-for-%v)", stallBound)] = true
 	} else {
